@@ -326,6 +326,8 @@ static std::vector<std::string> hist_gen(const GenArgs &ga) {
       int maxsize = pr.chance(1, 5) ? 4 : 8;
       l += " spec=" + gen_spec(pr, maxlen, maxsize, use_corpus, P == "C06" || P == "C16" || P == "C17");
       l += strf(" backup=%d", (P == "C06" || P == "C16") ? (int)pr.chance(2, 5) : 0);
+      // a sixth of the programs are built the way orcc-generated code builds them: from static bytecode
+      if (pr.chance(1, 6)) l += " via=bc";
     } else if (op == "compile") {
       static const char *t06[] = {"default", "default", "default", "avx", "sse", "mmx", "null"};
       static const char *t09[] = {"default", "default", "avx", "sse", "sse", "mmx"};
@@ -1052,6 +1054,15 @@ static void hist_run(const std::vector<std::string> &plan, Child &c) {
         std::string name = strf("prog%d", p.id);
         std::string spec = kv(w, "spec");
         p.p = build_program(spec, name, &p.meta);
+        if (kv(w, "via", "api") == "bc") {
+          OrcBytecode *bc = orc_bytecode_from_program(p.p);
+          OrcProgram *q = orc_program_new_from_static_bytecode(bc->bytecode);
+          orc_bytecode_free(bc);
+          orc_program_free(p.p);
+          orc_program_set_name(q, name.c_str());
+          p.p = q;
+          c.count("op.new_from_static_bytecode");
+        }
         p.twin = make_twin(spec, name);
         if (kvi(w, "backup", 0) && p.id < MAX_BACKUP) {
           p.backup_slot = p.id;
